@@ -13,6 +13,7 @@
 (*   SolutionLayout  the solution vector is cut at the dimensions of the   *)
 (*                   domain spaces and the k-th piece becomes a function   *)
 (*                   of domain_k                                           *)
+(*   RhsKeepsComplex the stacked right-hand side is complex iff an entry is  *)
 (*   SettingsHandedOn restart and maxiter reach SciPy as the caller gave them *)
 (*   ReturnShape     (solution, info [, residuals] [, count]) in this      *)
 (*                   order; len(residuals) = count = number of callbacks   *)
@@ -29,10 +30,11 @@ CONSTANTS Dims,          \* candidate dimensions, e.g. {2, 3, 5}
           DualDims,      \* dimensions realised by dual-grid spaces: their dof count on the (barycentric) grid differs from the global one
           SliceBy,       \* "global" (as written: space.global_dof_count) or "grid" (negative configuration: space.grid_dof_count)
           SwapBlockedSettings,   \* FALSE as written; TRUE (negative configuration): blocked gmres hands (maxiter, restart) on in the wrong order
+          DtypeRule,     \* "all" as written: the stacked right-hand side is complex as soon as one entry is; "last" (negative configuration)
           EmitJson
 
-VARIABLES cfg, pc, rhsOff, solOff, ret, backend
-vars == <<cfg, pc, rhsOff, solOff, ret, backend>>
+VARIABLES cfg, pc, rhsOff, solOff, ret, backend, rhsType
+vars == <<cfg, pc, rhsOff, solOff, ret, backend, rhsType>>
 \* iteration settings of a call: "none" (argument omitted) or one of two distinct values
 Settings == {[restart |-> "none", maxiter |-> "none"], [restart |-> "a", maxiter |-> "b"]}
 GridLen(d) == IF d \in DualDims THEN 2 * d ELSE d
@@ -41,8 +43,8 @@ SliceLen(d) == IF SliceBy = "global" THEN d ELSE GridLen(d)
 Shapes == {<<1, 1>>, <<2, 2>>, <<1, 2>>, <<2, 1>>}
 Configs ==
     {[solver |-> s, blocked |-> b, shape |-> sh, strong |-> st, rr |-> rr, rc |-> rc,
-      dom |-> dm, ran |-> rn, dua |-> du, settings |-> se] :
-        se \in Settings, s \in Solvers_, b \in BOOLEAN, sh \in Shapes, st \in BOOLEAN, rr \in BOOLEAN, rc \in BOOLEAN,
+      dom |-> dm, ran |-> rn, dua |-> du, settings |-> se, rhsdt |-> dt] :
+        dt \in [1..2 -> {"r", "c"}], se \in Settings, s \in Solvers_, b \in BOOLEAN, sh \in Shapes, st \in BOOLEAN, rr \in BOOLEAN, rc \in BOOLEAN,
         dm \in [1..2 -> Dims], rn \in [1..2 -> Dims], du \in [1..2 -> Dims]}
 
 \* a system is solvable only if the total dimensions agree; cg and the direct solvers take square systems
@@ -54,12 +56,20 @@ Valid(c) ==
     /\ (~c.blocked => c.shape = <<1, 1>>)
     /\ (c.solver = "cg" => ~c.blocked)
     /\ (c.solver \in {"lu", "lu_factors"} => ~c.strong /\ ~c.rr /\ ~c.rc)
+    /\ ((~c.blocked \/ c.strong \/ c.solver = "cg") => c.rhsdt = [i \in 1..2 |-> "r"])      \* entry dtypes are varied for the stacked weak right-hand sides only
+    /\ (\A i \in (c.shape[1] + 1)..2 : c.rhsdt[i] = "r")
     /\ (c.solver # "gmres" => c.settings.restart = "none" /\ c.settings.maxiter = "none")    \* restart exists for gmres only; one setting elsewhere
     /\ (IF c.strong THEN SumTo(c.ran, Rows(c)) = SumTo(c.dom, Cols(c)) ELSE SumTo(c.dua, Rows(c)) = SumTo(c.dom, Cols(c)))
     /\ (c.strong => \A i \in 1..Rows(c) : c.ran[i] = c.dua[i])          \* square mass matrices
     /\ (\A i \in (Rows(c) + 1)..2 : c.ran[i] = 2 /\ c.dua[i] = 2) /\ (\A j \in (Cols(c) + 1)..2 : c.dom[j] = 2)  \* canonical unused entries
 
-Init == cfg \in {c \in Configs : Valid(c)} /\ pc = "pack" /\ rhsOff = <<>> /\ solOff = <<>> /\ ret = <<>> /\ backend = [restart |-> "unset", maxiter |-> "unset"]
+\* (nested quantifiers instead of cfg \in {c \in Configs : Valid(c)}: TLC enumerates them without building the set of all records)
+Init == /\ \E dt \in [1..2 -> {"r", "c"}], se \in Settings, s \in Solvers_, b \in BOOLEAN, sh \in Shapes, st \in BOOLEAN, rr \in BOOLEAN, rc \in BOOLEAN,
+             dm \in [1..2 -> Dims], rn \in [1..2 -> Dims], du \in [1..2 -> Dims] :
+             LET c == [solver |-> s, blocked |-> b, shape |-> sh, strong |-> st, rr |-> rr, rc |-> rc,
+                       dom |-> dm, ran |-> rn, dua |-> du, settings |-> se, rhsdt |-> dt]
+             IN Valid(c) /\ cfg = c
+        /\ pc = "pack" /\ rhsOff = <<>> /\ solOff = <<>> /\ ret = <<>> /\ backend = [restart |-> "unset", maxiter |-> "unset"] /\ rhsType = "unset"
 
 \* projections_from_grid_functions_list: piece i has the length of b_i.projections(dual_i), i.e. dim(dual_i);
 \* coefficients_from_grid_functions_list: piece i has item.space.global_dof_count, i.e. dim(range_i)
@@ -69,25 +79,27 @@ Pack ==
            RECURSIVE off(_)
            off(i) == IF i = 1 THEN 0 ELSE off(i - 1) + len(i - 1)
        IN rhsOff' = [i \in 1..Rows(cfg) |-> <<off(i), off(i) + len(i)>>]
+    \* dtype of the stacked vector: promoted over every entry (projections_from_grid_functions_list accumulates promote_types)
+    /\ rhsType' = IF DtypeRule = "all" THEN (IF \E i \in 1..Rows(cfg) : cfg.rhsdt[i] = "c" THEN "c" ELSE "r") ELSE cfg.rhsdt[Rows(cfg)]
     /\ pc' = "solve" /\ UNCHANGED <<cfg, solOff, ret, backend>>
 \* the call into SciPy: scipy.sparse.linalg.gmres(A_op, b_vec, rtol=tol, restart=restart, maxiter=maxiter, ...); the blocked variant
 \* goes through one more positional call (_gmres_block_op_imp(A, b, tol, restart, maxiter, ...))
 Solve == /\ pc = "solve"
          /\ backend' = IF cfg.blocked /\ SwapBlockedSettings THEN [restart |-> cfg.settings.maxiter, maxiter |-> cfg.settings.restart]
                         ELSE [restart |-> cfg.settings.restart, maxiter |-> cfg.settings.maxiter]
-         /\ pc' = "unpack" /\ UNCHANGED <<cfg, rhsOff, solOff, ret>>
+         /\ pc' = "unpack" /\ UNCHANGED <<cfg, rhsOff, solOff, ret, rhsType>>
 \* grid_function_list_from_coefficients: piece k has space.global_dof_count of domain_k
 Unpack ==
     /\ pc = "unpack"
     /\ LET RECURSIVE off(_)
            off(k) == IF k = 1 THEN 0 ELSE off(k - 1) + SliceLen(cfg.dom[k - 1])
        IN solOff' = [k \in 1..Cols(cfg) |-> <<off(k), off(k) + SliceLen(cfg.dom[k])>>]
-    /\ pc' = "return" /\ UNCHANGED <<cfg, rhsOff, ret, backend>>
+    /\ pc' = "return" /\ UNCHANGED <<cfg, rhsOff, ret, backend, rhsType>>
 Return ==
     /\ pc = "return"
     /\ ret' = IF cfg.solver \in {"lu", "lu_factors"} THEN <<"solution">>
               ELSE <<"solution", "info">> \o (IF cfg.rr THEN <<"residuals">> ELSE <<>>) \o (IF cfg.rc THEN <<"count">> ELSE <<>>)
-    /\ pc' = "done" /\ UNCHANGED <<cfg, rhsOff, solOff, backend>>
+    /\ pc' = "done" /\ UNCHANGED <<cfg, rhsOff, solOff, backend, rhsType>>
 Next == Pack \/ Solve \/ Unpack \/ Return
 Spec == Init /\ [][Next]_vars
 
@@ -102,6 +114,8 @@ SolutionLayout == pc \in {"return", "done"} =>
     /\ Tiles(solOff, SumTo(cfg.dom, Cols(cfg)))
     /\ \A k \in 1..Cols(cfg) : solOff[k][2] - solOff[k][1] = cfg.dom[k]
     /\ solOff[Cols(cfg)][2] = rhsOff[Rows(cfg)][2]                  \* the system is square as a whole
+\* no entry of the right-hand side loses its imaginary part when the entries are stacked
+RhsKeepsComplex == pc \in {"solve", "unpack", "return", "done"} => (rhsType = "c" <=> \E i \in 1..Rows(cfg) : cfg.rhsdt[i] = "c")
 \* the iteration settings reach the backend as the caller gave them
 SettingsHandedOn == pc \in {"unpack", "return", "done"} => backend = cfg.settings
 ReturnShape == pc = "done" =>
